@@ -136,12 +136,10 @@ func (r *run) compareCBs() {
 			if errKind == "source" || (err != nil && errors.Is(err, errSource)) {
 				return "C09"
 			}
-			return "C04"
+			// C09 too: global callbacks are delivered in every state but "delay in force and suppress set"
+			return "C04,C09"
 		case who == "onnew":
-			if r.sc.Delay {
-				return "C09"
-			}
-			return "C06"
+			return "C06,C09"
 		}
 		return "C06"
 	}
@@ -260,6 +258,10 @@ func (r *run) checkVerifyEntry(p *reportProc) bool {
 			// C05: "... or the last view that verified, if that stack does not"
 			tag += ",C05"
 			extra = "; the stack does not verify, yet the view moved away from the last version that verified"
+			if p.op != nil && p.op.Block {
+				// C07: a blocking report of it must return the verifier's error and leave the view alone
+				tag += ",C07"
+			}
 		}
 		r.viol(tag, "a re-stack with verification active called Verify %d times, want exactly 1%s", len(vl)-r.verifSeen, extra)
 		return false
@@ -802,7 +804,8 @@ func (r *run) stepDone(op *Op) {
 	if !any {
 		r.afterShutdown("every watcher called Done")
 	} else if r.isExited() {
-		r.viol("C08", "the monitor exited although a source is still watching")
+		// C05 too: whatever the remaining watchers report from now on can never reach the view
+		r.viol("C08,C05", "the monitor exited although a source is still watching")
 	}
 	r.compareCBs()
 }
@@ -1022,6 +1025,7 @@ func (r *run) stepEnable() {
 	}
 	synctest.Wait()
 	cur := r.cfgs[r.cur]
+	_, viewTok := r.d.ViewVersion() // nothing is installed between the call and here
 	r.mu.Lock()
 	vl := append([]verifyRec{}, r.verifyLog...)
 	r.mu.Unlock()
@@ -1035,7 +1039,7 @@ func (r *run) stepEnable() {
 			r.viol("C09", "EnableVerification with verification already active called Verify %d times", len(newV))
 			return
 		}
-		if err != nil || cfg != cur.ptr || serialOf(tok) != r.serial {
+		if err != nil || cfg != cur.ptr || serialOf(tok) != r.serial || tok != viewTok {
 			r.viol("C09", "EnableVerification (verification already active) returned (%s, serial %d, %v), want the current config, serial %d, nil", r.whatPtr(cfg), serialOf(tok), err, r.serial)
 			return
 		}
@@ -1065,6 +1069,10 @@ func (r *run) stepEnable() {
 	}
 	if cfg != cur.ptr || serialOf(tok) != r.serial {
 		r.viol("C09", "EnableVerification returned (%s, serial %d), want the installed config %s and its serial %d", r.whatPtr(cfg), serialOf(tok), r.what(r.cur), r.serial)
+		return
+	}
+	if tok != viewTok {
+		r.viol("C09", "EnableVerification returned a serial token that is not the one ViewVersion hands out for the same installed version (it would be useless for RegisterCallback)")
 		return
 	}
 	r.skipVerify = false
